@@ -17,6 +17,8 @@ func fromField(v ssa.Value, f *types.Var) bool {
 }
 
 func checkC07(p *load.Program, r *kit.Report) {
+	importRules(p, r, "C11", "after a restart a side branch that overtakes is announced from its fork point, which must still be held by its parent: load prunes before it links, so a branch forking below the retained depth is dropped instead of kept half-attached", 1, nil, "PRUNE-BEFORE-LINK")
+	importRules(p, r, "C08", "a submission that fails after the tip has changed leaves the new tip unannounced (the resubmission is a duplicate and sends nothing): errors are returned before any effect only", 12, nil, "NO-EFFECT-BEFORE-ERROR")
 	importRules(p, r, "C10", "a reorganisation is announced from the fork point, which IntersectHash finds by walking the parent links of both branches and reads through the parents' height maps: Clean must re-attach every branch to the rebuilt objects and keep in memory the headers every side branch forks from, or the switch is made silently (\"Intersect not found/missing\")", 2, nil, "COVER-ALL")
 	r.NotDecided = "that a subscriber's reconstruction equals the reported chain for every tree shape (IntersectHash's result as a value); behaviour when the 10000-slot buffer is full; histories."
 	r.Rule("WRITERS", "sends on subscriber channels (elements of Repository.newHeadersChannels) happen only in ProcessHeader and sendBranchUpdate, close only in Stop, registration only in GetNewHeadersAvailableChannel", 4)
